@@ -68,9 +68,18 @@ def follow_ups(draw, units_a, units_r):
 
 @st.composite
 def binary_case(draw):
-    cls = draw(st.sampled_from(["same_unit", "other_unit", "other_unit", "log", "decimal", "number", "other_dim", "prepared"]))
+    cls = draw(st.sampled_from(["same_unit", "other_unit", "other_unit", "log", "decimal", "number", "other_dim", "prepared",
+                                "temperature"]))
     op = draw(st.sampled_from(BIN))
-    if cls == "prepared":
+    if cls == "temperature":
+        tu = ["K", "Cel", "degF", "degR", "mK"]
+        arr = draw(st.booleans())
+        tv = st.floats(250.0, 400.0)
+        a = draw(operand(unit_text=draw(st.sampled_from(tu)), allow_dec=False, array=arr, values=tv))
+        b = draw(operand(unit_text=draw(st.sampled_from(tu)), allow_dec=False, array=arr, values=tv))
+        op = draw(st.sampled_from(["+", "-", "==", "=="]))
+        alts = ["K", "Cel", "degF"]
+    elif cls == "prepared":
         prep = lambda: {"x": draw(st.floats(0.01, 0.99)), "u": None, "e": None, "dec": False,
                         "prep": draw(st.sampled_from(["cm/m", "m/km", "mm/m", "s/ms"]))}
         a = prep() if draw(st.booleans()) else draw(operand(unit_text=draw(st.sampled_from([None, "%"])), allow_dec=False, array=False))
@@ -114,7 +123,14 @@ def binary_case(draw):
 
 @st.composite
 def unary_case(draw):
-    fn = draw(st.sampled_from(UFUNC1 + ["neg", "pow", "power", "value"]))
+    fn = draw(st.sampled_from(UFUNC1 + ["neg", "pow", "power", "value", "value", "value_T"]))
+    if fn == "value_T":
+        # a query of a temperature (array) in another scale
+        a = draw(operand(unit_text=draw(st.sampled_from(["K", "Cel", "degF", "degR"])), allow_dec=False,
+                         values=st.floats(250.0, 400.0)))
+        alts = ["Cel", "K", "degF"]
+        return {"kind": "unary", "fn": "value", "a": a, "arg": draw(st.sampled_from(alts)),
+                "follow": draw(follow_ups(alts, [])), "alts": alts, "dec_prelude": draw(st.booleans())}
     if fn in ("sin", "cos", "tan"):
         u = draw(st.sampled_from(ANGLE + ["deg", "deg"]))
         a = draw(operand(unit_text=u, allow_dec=False, values=st.floats(-90, 90) | st.sampled_from([30.0, 45.0, 60.0])))
@@ -137,7 +153,8 @@ def unary_case(draw):
             arg = list(arg)
     if fn == "value":
         arg = alts[0]
-    return {"kind": "unary", "fn": fn, "a": a, "arg": arg, "follow": draw(follow_ups(alts, [])), "alts": alts}
+    return {"kind": "unary", "fn": fn, "a": a, "arg": arg, "follow": draw(follow_ups(alts, [])), "alts": alts,
+            "dec_prelude": fn == "value" and draw(st.booleans())}
 
 
 @st.composite
@@ -348,6 +365,21 @@ def check_unary(case, v):
     a_spec, fn, arg = case["a"], case["fn"], case["arg"]
     A = _mk(a_spec)
     text = f"{fn}({_describe(a_spec)}{'' if arg is None else ', %r' % (arg,)})"
+    ref = None
+    if case.get("dec_prelude") and fn == "value":
+        # the same query on an equal, separate object first; then an unrelated Decimal quantity is queried with the
+        # same unit strings; the operand's own query afterwards must answer the same
+        try:
+            ref = ("ok", _canon_val(copy.deepcopy(_mk(a_spec).value(arg))))
+        except Exception as e:
+            ref = ("raised", type(e).__name__)
+        try:
+            d = Quantity(Decimal("2.5"), a_spec["u"])
+            d.value(arg)
+            Quantity(Decimal("1.5"), a_spec["u"]).to(arg)
+        except Exception:
+            pass
+        text += " [after a Decimal quantity was queried with the same unit strings]"
     sa = snap(A)
     raised = False
     r = None
@@ -367,6 +399,11 @@ def check_unary(case, v):
     d = diff(sa, A)
     if d:
         return v.fail("operand-changed", f"{text}{' (raised)' if raised else ''} altered its operand: {d}")
+    if ref is not None:
+        now = ("raised", None) if raised else ("ok", _canon_val(copy.deepcopy(r)))
+        if ref[0] != now[0] or (ref[0] == "ok" and not _same(ref[1], now[1])):
+            return v.fail("history-dependent", f"{text}: {now!r}, the same query before that gave {ref!r}")
+        v.label("after_decimal_prelude")
     objs = {"a": A, "r": r if isinstance(r, Quantity) else None}
     _apply_follow(v, case["follow"], objs, {"a": "operand", "r": "result"}, text)
     if v.violations:
